@@ -32,7 +32,8 @@ P == 1
 Q == 2
 \* configurations a caller may switch to (family "config" only); every operation obeys the one current at its call
 Cfgs == IF Family = "config"
-        THEN {[wlmax |-> 2, autosplit |-> TRUE], [wlmax |-> 5, autosplit |-> TRUE], [wlmax |-> 3, autosplit |-> FALSE]}
+        THEN {[wlmax |-> 2, autosplit |-> TRUE, diti |-> FALSE], [wlmax |-> 5, autosplit |-> TRUE, diti |-> FALSE],
+              [wlmax |-> 3, autosplit |-> FALSE, diti |-> FALSE], [wlmax |-> 2, autosplit |-> TRUE, diti |-> TRUE]}
         ELSE {}
 MaxWlMax == LET all == {WlMax} \cup {c.wlmax : c \in Cfgs} IN CHOOSE m \in all : \A y \in all : y <= m
 \* the volume limits <<min_volume, max_volume>> of the two labware are public attributes as well (family "config":
@@ -40,7 +41,7 @@ MaxWlMax == LET all == {WlMax} \cup {c.wlmax : c \in Cfgs} IN CHOOSE m \in all :
 Lim0 == << <<0, 6>>, <<1, 8>> >>
 Lims == IF Family = "config" THEN {Lim0, << <<0, 3>>, <<1, 8>> >>, << <<0, 6>>, <<4, 8>> >>} ELSE {}
 T == [dev |-> Dev, unitc |-> 100, k |-> 1, wlmax |-> cfg.wlmax, wlmaxc |-> cfg.wlmax * 100,
-      autosplit |-> cfg.autosplit, diti |-> FALSE,
+      autosplit |-> cfg.autosplit, diti |-> cfg.diti,
       lw |-> << [name |-> "P", g |-> PlateGeom(2, 2), minv |-> lim[1][1], maxv |-> lim[1][2], grid |-> 11, site |-> 0],
                 [name |-> "Q", g |-> TroughGeom(2, 2), minv |-> lim[2][1], maxv |-> lim[2][2], grid |-> 12, site |-> 1] >>]
 
@@ -212,7 +213,7 @@ InitState(v) ==
                InitComp("Q", T.lw[Q].g, v[Q], [i \in 1..2 |-> [h |-> FALSE, l |-> ""]]) >>,
    hist |-> << InitHist(v[P]), InitHist(v[Q]) >>]
 
-Init == /\ cfg = [wlmax |-> WlMax, autosplit |-> AutoSplit] /\ lim = Lim0
+Init == /\ cfg = [wlmax |-> WlMax, autosplit |-> AutoSplit, diti |-> FALSE] /\ lim = Lim0
         /\ \E v \in InitVols : S = InitState(v) /\ S0 = InitState(v)
         /\ wl = <<>> /\ out = "ok" /\ allok = TRUE /\ prevok = TRUE /\ tracked = TRUE /\ nodisp = TRUE /\ chk = AllTrue /\ depth = 0
 
